@@ -40,7 +40,7 @@ def userinfo_brackets(cleaned):
     """a raw '[' or ']' in the userinfo of an authority urlsplit accepts: no URL (RFC 3986
     3.2.1) although CPython lets it through (its bracket check reads the text between the
     first '[' of the netloc and the next ']', wherever they stand); canonicalize_url rejects
-    it with ValueError since FX-C01-USERBRACKETS"""
+    it with ValueError since FX-C01-ca9f3e6"""
     try:
         ui = urlsplit(cleaned).netloc.rpartition("@")[0]
     except ValueError:
